@@ -26,6 +26,9 @@ type hxExchange struct {
 	mu       sync.Mutex
 	RespBody bytes.Buffer  // every byte the handler wrote
 	Done     chan struct{} // closed when the handler returned
+	// Cut breaks the connection of this exchange: the client's read of the body fails, the handler's
+	// request context ends and its writes fail.  Nil for intercepted exchanges.
+	Cut func()
 }
 
 func (x *hxExchange) Body() string {
@@ -129,6 +132,12 @@ func (t *hxTransport) RoundTrip(req *http.Request) (*http.Response, error) {
 		sreq = t.Tag(sreq)
 	}
 	pr, pw := io.Pipe()
+	sctx, cancelServer := context.WithCancel(sreq.Context())
+	sreq = sreq.WithContext(sctx)
+	x.Cut = func() {
+		pr.CloseWithError(io.ErrUnexpectedEOF)
+		cancelServer()
+	}
 	w := &hxWriter{x: x, hdr: http.Header{}, pw: pw, ready: make(chan struct{}), fault: t.WriteFault}
 	go func() {
 		defer close(x.Done)
@@ -140,6 +149,7 @@ func (t *hxTransport) RoundTrip(req *http.Request) (*http.Response, error) {
 			}
 		}()
 		t.Handler.ServeHTTP(w, sreq)
+		cancelServer()
 		w.commit(http.StatusOK)
 		if w.faulted {
 			// like a real connection whose writes failed: it is torn down, the client's read of the
